@@ -22,6 +22,9 @@ def main(argv=None) -> int:
     seed = int(os.environ.get("VERIF_SEED", "0") or 0)
     t0 = time.time()
     ctx = CheckContext(a.prop, a.tier)
+    from .core.model import repo_root
+    from .core.report import tree_is_reference
+    ctx.strict = tree_is_reference(repo_root())
     try:
         mod = importlib.import_module(f"opstatic.checks.{a.prop}")
     except ModuleNotFoundError:
@@ -41,6 +44,7 @@ def main(argv=None) -> int:
         want = json.load(open(a.replay))
         ctx.obligations = [o for o in ctx.obligations if o.rule == want["rule"] and o.key == want["key"]]
         ctx.floors = {}
+        ctx.replay = True
         if not ctx.obligations:
             print(f"replay: instance no longer present: {want['rule']} {want['key']}")
     return finish(ctx, t0, seed)
